@@ -254,6 +254,46 @@ static void algebra_case(Rng& rng, unsigned m, unsigned n, unsigned k)
 		req_vector("compound-assignment-agrees-with-binary", "Vector::operator-=", y, from_lib(q2));
 		req_vector("sums-differences-elementwise", "Vector::operator-=", y, vd);
 		require("equal-shapes-are-defined", true, [] { return J(); });
+
+		// the same object on both sides (aliasing): A + A, A - A, A += A, A -= A, x += x, x -= x; square matrices: A * A through every spelling,
+		// also assigned back to A itself
+		RM twice(m, n), zero(m, n);
+		for(size_t i = 0; i < twice.a.size(); i++)
+			twice.a[i] = A.a[i] + A.a[i];
+		req_matrix("sums-differences-elementwise", "A + A", LA + LA, twice);
+		req_matrix("sums-differences-elementwise", "A.Plus(A)", LA.Plus(LA), twice);
+		req_matrix("sums-differences-elementwise", "A - A", LA - LA, zero);
+		Matrix s1 = LA;
+		s1 += s1;
+		req_matrix("compound-assignment-agrees-with-binary", "A += A", s1, twice);
+		Matrix s2 = LA;
+		s2 -= s2;
+		req_matrix("compound-assignment-agrees-with-binary", "A -= A", s2, zero);
+		Matrix s3 = LA;
+		s3 = s3;
+		req_matrix("sums-differences-elementwise", "A = A", s3, A);
+		std::vector<double> v2(n), v0(n, 0.0);
+		for(unsigned i = 0; i < n; i++)
+			v2[i] = u[i] + u[i];
+		Vector xx = Lu;
+		xx += xx;
+		req_vector("compound-assignment-agrees-with-binary", "x += x", xx, v2);
+		Vector yy = Lu;
+		yy -= yy;
+		req_vector("compound-assignment-agrees-with-binary", "x -= x", yy, v0);
+		req_vector("sums-differences-elementwise", "x + x", Lu + Lu, v2);
+		if(m == n)
+		{
+			Matrix sq = LA;
+			sq		  = sq * sq;
+			judge_product("product-entries-are-sums-aik-bkj", "A = A * A", from_lib(sq), A, A);
+			Matrix sq2 = LA;
+			sq2		   = sq2.Product(sq2);
+			judge_product("product-entries-are-sums-aik-bkj", "A = A.Product(A)", from_lib(sq2), A, A);
+			Vector w2 = Lu;
+			w2		  = LA * w2;
+			judge_product("vector-products-are-matrix-products", "x = A * x", vec_as_column(w2), A, column_matrix(u));
+		}
 	}
 
 	// --- products
